@@ -161,7 +161,7 @@ func (ic *interleaveClient) Do(req *http.Request) (*http.Response, error) {
 }
 
 func TestPropInterleavedUploads(t *testing.T) {
-	vlib.Check(t, 80, 1500, func(t *rapid.T) {
+	vlib.Check(t, 80, 800, func(t *rapid.T) {
 		c := cluster(t)
 		a := genPayloadSpec(rapid.OneOf(rapid.IntRange(65536, 400000), rapid.IntRange(65536, 1<<20))).Draw(t, "A")
 		head := rapid.OneOf(rapid.SampledFrom([]int{1, 100, 512, 4096, 16384, 65536}), rapid.IntRange(1, 65536)).Draw(t, "head")
@@ -308,12 +308,12 @@ func concurrentProperty(t *rapid.T, maxN, maxLarge, rounds int) {
 }
 
 func TestPropConcurrentUploads(t *testing.T) {
-	vlib.Check(t, 8, 300, func(t *rapid.T) { concurrentProperty(t, vlib.Pick(16, 32), vlib.Pick(600000, 2<<20), 1) })
+	vlib.Check(t, 8, 150, func(t *rapid.T) { concurrentProperty(t, vlib.Pick(16, 32), vlib.Pick(600000, 2<<20), 1) })
 }
 
 // Same body under the race detector (thorough tier): a pooled buffer that is
 // reused while a request still reads it is a data race even when the bytes
 // happen to arrive intact.
 func TestRaceConcurrentUploads(t *testing.T) {
-	vlib.Check(t, 8, 120, func(t *rapid.T) { concurrentProperty(t, 24, 1<<20, 2) })
+	vlib.Check(t, 8, 60, func(t *rapid.T) { concurrentProperty(t, 24, 1<<20, 2) })
 }
